@@ -163,6 +163,10 @@ func (s *Linear) Nice(o TickOptions) {
 	}
 
 	firstN, lastN, spacing := s.spacingAtLevel(level, true)
+	if math.IsInf(spacing, 0) {
+		// No finite tick spacing satisfies o.
+		return
+	}
 	s.Min = firstN * spacing
 	s.Max = lastN * spacing
 }
